@@ -358,6 +358,12 @@ package genql
 //@ func SubqueryExpr$2
 //@   requires captured: query != nil && subQuery != nil
 
+//@ func (*Query).exec$2
+//@   requires captured: query != nil && copy != nil
+
+//@ func BuildJoin$1
+//@   requires captured: query != nil && side != nil
+
 //@ func ExistExpr$2
 //@   requires captured: query != nil && q != nil
 
@@ -410,7 +416,7 @@ package genql
 //@   ensures literal[C02,C01,C12]: typeis(any, NeutalString) ==> err == nil && result == any(string(any.(NeutalString)))
 //@   ensures number[C02,C01,C12]: typeis(any, *float64) && any.(*float64) != nil ==> err == nil && result == any(*any.(*float64))
 //@   ensures null-number[C02,C12]: typeis(any, *float64) && any.(*float64) == nil ==> err == nil && result == nil
-//@   ensures column[C02,C01]: typeis(any, ColumnName) && err == nil ==> result == spec.Read(any(current), string(any.(ColumnName)))
+//@   ensures column[C02,C01]: typeis(any, ColumnName) && err == nil && !typeis(spec.Read(any(current), string(any.(ColumnName))), CteEvaluation) ==> result == spec.Read(any(current), string(any.(ColumnName)))
 //@   ensures other[C02,C12]: !typeis(any, NeutalString) && !typeis(any, *float64) && !typeis(any, ColumnName) ==> err == nil && result == any
 //@   ensures unwrapped[C12]: err == nil && !typeis(any, ColumnName) ==> !typeis(result, ColumnName) && !typeis(result, NeutalString) && !typeis(result, *float64)
 
@@ -873,3 +879,23 @@ package genql
 // Reader resolves a lazily evaluated CTE in its `func() (any, error)` cases while BuildCte and BuildFromAliasedTable spell
 // the type CteEvaluation: the two must be one type (an alias), or a CTE first read through a path selector is rejected
 //@ same-type [C07] CteEvaluation == func() (any, error)
+
+// ---------------------------------------------------------------------------
+// Work a query defers (post processors: removal of the `<-` entry, resolution of ASYNC columns; ASYNC calls still
+// running) must reach the query that Exec finishes. A copy made by CopyQuery collects it in a list of its own, and the
+// two functions that run or build on a copy adopt that list after the run and forward the copy's wait group; the post
+// processors are walked to the current end of the list, because one of them (AWAIT) may register more. (C11: the
+// navigation entry is removed from the caller's rows; C12, C14: ASYNC columns are resolved and awaited.)
+//@ callers-of CopyQuery [C11,C12,C14]: (*Query).exec BuildJoin
+//@ func CopyQuery
+//@   ensures a-list-of-its-own[C11,C12,C14]: len(result.postProcessors) == 0 && fresh(result.postProcessors)
+//@ func (*Query).exec
+//@   at-call append:copy.postProcessors assert the-deferred-work-of-the-copy-is-adopted-after-its-run[C11,C12,C14]: called(exec)
+//@ func BuildJoin
+//@   at-call append:side.postProcessors assert the-deferred-work-of-both-sides-is-adopted-once-they-are-built[C11,C12,C14]: called(BuildFrom)
+//@ func (*Query).execAndPostProcess
+//@   loop 0 rereads registered-while-running-are-run-too[C11,C12,C14]: query.postProcessors
+
+// a tuple holds values, not the evaluator's wrappers
+//@ func ValueTupleExpr
+//@   at-call append assert every-element-went-through-ValueOf[C12,C02]: called(ValueOf) && appended == callresult(ValueOf, 0)
